@@ -6,6 +6,9 @@ import argparse, concurrent.futures, json, os, re, subprocess, sys
 
 EXTRA = {  # additional checks that are expected to see a change, besides the property it was written for
     "C01-b": ["C09"], "C03-a": ["C20"], "C10-b": ["C09"], "C12-b": ["C15"],
+    # changes written for a sequence-quantified property that only show under a thread interleaving are the
+    # business of the schedule-quantified sibling (first use: C09, test scopes: C11); tag-map aliasing is C04's
+    "C03-2b": ["C09"], "C05-2b": ["C09"], "C10-2a": ["C11", "C09"], "C05-2a": ["C04"], "C06-2b": ["C04"], "C01-2b": ["C07"],
 }
 
 def run_one(base, name, props, redo):
